@@ -129,6 +129,7 @@ func run(seed int64, n int, dir string, _ []string) {
 		{"SELECT * FROM nosuch;", true, nil, "missing-table"},
 	}
 	sigs := []string{"SIGINT", "SIGTERM", "SIGQUIT"}
+	obstacles(o, bin, scratch, mk)
 
 	check := func(p prog, d string, before map[string]string, how string, r result) {
 		after := snapshot(d)
@@ -220,5 +221,132 @@ func run(seed int64, n int, dir string, _ []string) {
 		for _, tag := range []string{"", "-lk", "-sig", "-tm"} {
 			_ = os.RemoveAll(filepath.Join(scratch, fmt.Sprintf("c11-%d%s", pi, tag)))
 		}
+	}
+}
+
+// listing renders a directory as name=kind:content (symlinks by their target, directories by "dir")
+func listing(dir string) map[string]string {
+	m := map[string]string{}
+	ents, _ := os.ReadDir(dir)
+	for _, e := range ents {
+		p := filepath.Join(dir, e.Name())
+		fi, err := os.Lstat(p)
+		switch {
+		case err != nil:
+			m[e.Name()] = "?"
+		case fi.Mode()&os.ModeSymlink != 0:
+			t, _ := os.Readlink(p)
+			m[e.Name()] = "link:" + t
+		case fi.IsDir():
+			m[e.Name()] = "dir"
+		default:
+			b, _ := os.ReadFile(p)
+			m[e.Name()] = "file:" + string(b)
+		}
+	}
+	return m
+}
+
+// obstacles: accesses that fail while the handler is being set up (the path cannot be created / opened
+// although the pre-checks pass), and runs whose working directory changes: a failed or read-only run leaves
+// the repository exactly as it was — no control file, no emptied or deleted user file, nothing new.
+func obstacles(o *hc.Out, bin, scratch string, mk func(string) string) {
+	type sc struct {
+		name  string
+		setup func(d string)
+		args  []string
+		// files the run may legitimately add or change
+		allow map[string]bool
+	}
+	scs := []sc{
+		{"create_over_dangling_symlink", func(d string) { _ = os.Symlink(filepath.Join(d, "nowhere", "t.csv"), filepath.Join(d, "n.csv")) }, []string{"CREATE TABLE `n.csv` (x, y)"}, nil},
+		{"create_over_symlink_loop", func(d string) {
+			_ = os.Symlink(filepath.Join(d, "l2.csv"), filepath.Join(d, "l1.csv"))
+			_ = os.Symlink(filepath.Join(d, "l1.csv"), filepath.Join(d, "l2.csv"))
+		}, []string{"CREATE TABLE `l1.csv` (x)"}, nil},
+		{"create_then_insert_over_dangling_symlink", func(d string) { _ = os.Symlink("missing/t.csv", filepath.Join(d, "n.csv")) }, []string{"CREATE TABLE `n.csv` (x); INSERT INTO `n.csv` VALUES (1); COMMIT;"}, nil},
+		{"select_from_directory", func(d string) { _ = os.Mkdir(filepath.Join(d, "d.csv"), 0o755) }, []string{"SELECT * FROM `d.csv`"}, nil},
+		{"update_directory", func(d string) { _ = os.Mkdir(filepath.Join(d, "d.csv"), 0o755) }, []string{"UPDATE `d.csv` SET a = 1"}, nil},
+		{"create_over_directory", func(d string) { _ = os.Mkdir(filepath.Join(d, "d.csv"), 0o755) }, []string{"CREATE TABLE `d.csv` (x)"}, nil},
+		{"select_dangling_symlink", func(d string) { _ = os.Symlink("missing.csv", filepath.Join(d, "n.csv")) }, []string{"SELECT * FROM `n.csv`"}, nil},
+		{"update_dangling_symlink", func(d string) { _ = os.Symlink("missing.csv", filepath.Join(d, "n.csv")) }, []string{"UPDATE `n.csv` SET a = 1"}, nil},
+		{"update_then_create_over_dangling_symlink", func(d string) { _ = os.Symlink("missing.csv", filepath.Join(d, "n.csv")) }, []string{"UPDATE a SET v = 1; CREATE TABLE `n.csv` (x);"}, nil},
+		{"lock_path_is_directory", func(d string) { _ = os.Mkdir(filepath.Join(d, ".a.csv.lock"), 0o755) }, []string{"--wait-timeout", "0.1", "UPDATE a SET v = 1"}, nil},
+		{"temp_path_is_directory", func(d string) { _ = os.Mkdir(filepath.Join(d, ".a.csv.temp"), 0o755) }, []string{"--wait-timeout", "0.1", "UPDATE a SET v = 1"}, nil},
+	}
+	for _, c := range scs {
+		d := mk("ob-" + c.name)
+		c.setup(d)
+		before := listing(d)
+		r := csvq(bin, d, nil, 0, 0, c.args...)
+		after := listing(d)
+		rep := map[string]interface{}{"scenario": c.name, "args": c.args, "rc": r.rc, "output": r.out}
+		diff := []string{}
+		for k, v := range before {
+			if after[k] != v {
+				diff = append(diff, "changed or removed: "+k)
+			}
+		}
+		for k := range after {
+			if _, ok := before[k]; !ok {
+				diff = append(diff, "new: "+k)
+			}
+		}
+		sort.Strings(diff)
+		if r.rc != 0 && len(diff) > 0 {
+			rep["difference"] = diff
+			o.Law("failed_access_changed_directory", rep)
+		}
+		if strings.Contains(r.out, "Fatal Error") || strings.Contains(r.out, "panic:") {
+			o.Law("internal_error_on_termination", rep)
+		}
+		o.Eval()
+		o.NonTrivial(fmt.Sprintf("obstacle:%s:%d", c.name, r.rc))
+		o.Count("obstacle:" + c.name)
+		_ = os.RemoveAll(d)
+	}
+
+	// runs whose working directory changes (CHDIR) while an --out file is pending: nothing but the named
+	// output file may appear, and a file of the same name in the new directory is none of the run's business
+	type oc struct{ name, prog string }
+	for _, c := range []oc{
+		{"out_chdir_failing_select", "CHDIR '%s'; SELECT * FROM no_such_table;"},
+		{"out_chdir_exit", "CHDIR '%s'; EXIT;"},
+		{"out_chdir_no_select", "CHDIR '%s'; VAR @x := 1;"},
+		{"out_chdir_select", "CHDIR '%s'; SELECT COUNT(*) FROM a;"},
+		{"out_no_chdir_failing_select", "PRINT '%s'; SELECT * FROM no_such_table;"},
+	} {
+		data := mk("oc-" + c.name)
+		must(os.WriteFile(filepath.Join(data, "result.csv"), []byte("keep,me\n1,2\n"), 0o644))
+		start := filepath.Join(scratch, "c11-start-"+c.name)
+		_ = os.RemoveAll(start)
+		must(os.MkdirAll(start, 0o755))
+		before := listing(data)
+		cmd := exec.Command(bin, "--repository", data, "--quiet", "--out", "result.csv", fmt.Sprintf(c.prog, data))
+		cmd.Dir = start
+		cmd.Env = append(os.Environ(), "HOME="+start)
+		var out bytes.Buffer
+		cmd.Stdout, cmd.Stderr = &out, &out
+		_ = cmd.Run()
+		after := listing(data)
+		startAfter := listing(start)
+		rep := map[string]interface{}{"scenario": c.name, "program": fmt.Sprintf(c.prog, data), "output": out.String(), "start_dir_after": fmt.Sprint(startAfter)}
+		for k, v := range before {
+			if after[k] != v {
+				rep["changed_or_removed"] = k
+				o.Law("run_changed_unrelated_file", rep)
+			}
+		}
+		for k, v := range startAfter {
+			if k != "result.csv" || (v == "file:" && c.name != "out_chdir_select") {
+				rep["left_in_start_directory"] = k + "=" + v
+				o.Law("empty_output_file_left_behind", rep)
+			}
+		}
+		o.Eval()
+		o.NonTrivial("outdir:" + c.name)
+		o.Count("obstacle:" + c.name)
+		_ = os.RemoveAll(data)
+		_ = os.RemoveAll(start)
 	}
 }
